@@ -43,7 +43,8 @@ struct smooth_mc
     }
 };
 
-// configuration: 0 PLAIN, 1 VEGAS default, 2 VEGAS user grid, 3 MC default, 4 MC user weights with a disabled channel
+// configuration: 0 PLAIN, 1 VEGAS default, 2 VEGAS user grid, 3 MC default, 4 MC user weights with a disabled channel,
+// 5 MC user weights with a disabled channel and one weight below the minimum weight
 template <typename T, typename E>
 struct world
 {
@@ -88,6 +89,8 @@ struct ops<T, E, hep::multi_channel_chkpt_with_rng<E, T>>
     {
         E g; g.seed(99);
         if (cfg == 3) return hep::make_multi_channel_chkpt<T, E>(T(0.01L), T(0.25), g);
+        // cfg 5: one user weight lies below the minimum weight and is raised by the constructor
+        if (cfg == 5) return hep::make_multi_channel_chkpt<T, E>(std::vector<T>{T(1), T(0), T(40)}, T(1) / T(9), T(5) / T(11), g);
         return hep::make_multi_channel_chkpt<T, E>(std::vector<T>{T(1), T(0), T(3)}, T(1) / T(45), T(5) / T(11), g);
     }
     static C run(C const& c, std::vector<sz> const& calls)
@@ -268,7 +271,7 @@ static void config(report& r, int cfg, int depth)
 template <typename T, typename E>
 static void engine(report& r, int depth)
 {
-    for (int cfg = 0; cfg != 5; ++cfg)
+    for (int cfg = 0; cfg != 6; ++cfg)
     {
         config<T, E>(r, cfg, depth);
         if (r.deadline_hit()) return;
